@@ -116,5 +116,9 @@ def run(ck, ctx):
                         captured = len(caps) == 1 and caps[0][0] == "ref" and caps[0][1][0] == "arg" and caps[0][1][2] == "word"
                 fill_ok = "'Offset')" in r and "new_trunc" in r and "{closure@" in r and "'0', '&u16'" in r and captured and "ast::Offset<u16, 16>" in r
         ck.ob("C07.2", "fill-fallback", uses and fill_ok, "every other word becomes .fill Offset::<u16,16>::new_trunc(word) (identity on 16 bits by C35)", "src/ast/asm.rs:%s" % d.line)
+    ck.include("C06", ctx, "C07.4", None, "decode/encode must be inverse for the word -> instruction -> word part of the round trip")
+    ck.include("C36", ctx, "C07.5", {"C36.1", "C36.3", "C36.4"}, "the printed instruction must reparse to the same instruction")
+    ck.include("C01", ctx, "C07.6", {"C01.1", "C01.2"}, "reassembly uses the encoder rows and the alias expansion")
+    ck.include("C05", ctx, "C07.7", {"C05.1", "C05.3", "C05.5"}, "printed operands are read back by the numeric/register validators and field conversions")
     ck.assume("Display of AsmInstr/Directive and the parser agree (C36), keyword/operand parsing (C03, C05), encode/decode inverse (C06), alias expansion (C01)")
     ck.assume("logos overlap resolution between token kinds is trusted")
